@@ -128,7 +128,9 @@ def run_job(target, case, opts=None):
                     allowed.append(True)
                 goal = Or(*allowed) if allowed else False
                 ctx.prove(f"raises-sound:{val.exc.name}", "raises", goal,
-                          info={"path": pid, "where": val.where, "exc": val.exc.name})
+                          info={"path": pid, "where": val.where, "exc": val.exc.name}, assume_after=False)
+                for (nm, fn) in ctr.on_raise:
+                    ctx.prove(f"on-raise:{nm}", "post", fn(A), info={"path": pid, "exc": val.exc.name}, assume_after=False)
         except PathEnd:
             out["cut_paths"] += 1
         except Undecided as e:
